@@ -1847,19 +1847,25 @@ func relevantPool(goal Lin, pool []Lin) []Lin {
 			out = append(out, f)
 		}
 	}
+	// short facts first: derivations through them are found (and dead ends recognised) sooner
+	sort.SliceStable(out, func(i, j int) bool { return len(out[i].T) < len(out[j].T) })
 	return out
 }
 
 type fmState struct {
 	seen   map[string]bool
 	failed map[string]int // goal -> smallest depth at which the search for it failed
+	budget int            // remaining goal expansions; an exhausted search fails (never hangs)
 }
+
+// FMBudget bounds the goal expansions of one Fourier-Motzkin search.
+var FMBudget = 20000
 
 func fm(goal Lin, pool []Lin, depth int, seen map[string]bool) bool {
 	if goal.IsConst() {
 		return goal.C >= 0
 	}
-	st := &fmState{seen: seen, failed: map[string]int{}}
+	st := &fmState{seen: seen, failed: map[string]int{}, budget: FMBudget}
 	return st.run(goal, relevantPool(goal, pool), depth)
 }
 
@@ -1868,6 +1874,10 @@ func (st *fmState) run(goal Lin, pool []Lin, depth int) bool {
 		return goal.C >= 0
 	}
 	if depth > 6 {
+		return false
+	}
+	st.budget--
+	if st.budget < 0 {
 		return false
 	}
 	key := goal.String()
